@@ -91,6 +91,46 @@ def mac(rng):
         return m.upper() if rng.random() < 0.3 else m
 
 
+def ipv6_variants(rng):
+    """One IPv6 address in several notations: (list of distinct spellings).  No leading '::' (the recogniser's own
+    FIXME), at least one group with fewer than four digits so that padding makes a difference."""
+    groups = []
+    for k in range(8):
+        r = rng.random()
+        if 2 <= k <= 5 and r < 0.35:
+            groups.append(0)
+        else:
+            groups.append(rng.randint(1, 0xffff) if r < 0.7 else rng.randint(1, 0xff))
+    groups[0] = rng.choice([0x2001, 0xfe80, 0xfd12, 0x2a02])
+    if all(g > 0xfff for g in groups if g):
+        groups[7] = rng.randint(1, 0xff)
+    plain = ":".join("%x" % g for g in groups)
+    padded = ":".join("%04x" % g for g in groups)
+    mixed = ":".join(("%04x" % g) if rng.random() < 0.5 else ("%x" % g) for g in groups)
+    out = [plain, padded, mixed, plain.upper()]
+    # compress the first run of >= 2 zero groups
+    best = None
+    k = 1
+    while k < 8:
+        if groups[k] == 0:
+            j = k
+            while j < 8 and groups[j] == 0:
+                j += 1
+            if j - k >= 2 and j < 8 and best is None:
+                best = (k, j)
+            k = j
+        else:
+            k += 1
+    if best:
+        a, b = best
+        out.append(":".join("%x" % g for g in groups[:a]) + "::" + ":".join("%x" % g for g in groups[b:]))
+    res = []
+    for v in out:
+        if v not in res:
+            res.append(v)
+    return res
+
+
 def mac_substitute(m):
     """Reference of the documented substitute of a MAC address: every octet becomes the first two hex digits of the
     SHA-1 of its lower-case text; separator and letter case are kept."""
@@ -175,6 +215,13 @@ def _gen_case(rp, rf, rk, tier, flavour):
         if tw != m0:
             macs.append(tw)                 # the same address in the other letter case (HWADDR= style vs ip addr style)
             mac_twins.append([m0, tw])
+    ip6s = []
+    ip6_twins = []
+    for _ in range(rp.choice([0, 0, 1, 1, 2])):
+        vs = ipv6_variants(rp)
+        pick = rp.sample(vs, min(len(vs), rp.choice([1, 2, 2, 3])))
+        ip6s.extend(pick)
+        ip6_twins.extend([pick[0], x] for x in pick[1:])
     kws = rp.sample(KEYWORDS, rp.randint(0, 3))
     regex = rp.random() < 0.35
     if regex:
@@ -186,9 +233,10 @@ def _gen_case(rp, rf, rk, tier, flavour):
         patterns = {"plain": list(chosen)}
         pat_texts = list(chosen)
     obf = rk.random() < 0.85
-    cfg = {"obfuscate": obf, "obfuscate_hostname": obf and rk.random() < 0.75, "obfuscate_ipv6": obf and rk.random() < 0.3,
+    cfg = {"obfuscate": obf, "obfuscate_hostname": obf and rk.random() < 0.75, "obfuscate_ipv6": obf and rk.random() < 0.5,
            "obfuscate_mac": obf and rk.random() < 0.75}
     pool = [("ip", x) for x in ips] + [("mac", x) for x in macs] + [("kw", x) for x in kws] + [("pat", x) for x in pat_texts]
+    pool += [("ip6", x) for x in ip6s]
     pool += [("host", x) for x in hosts] + [("fqdn", fqdn), ("short", short)]
     marker_mode = rp.random() < (0.7 if flavour != "C08" else 0.4)
     collision = flavour == "C09" and rk.random() < 0.04
@@ -256,6 +304,12 @@ def _gen_case(rp, rf, rk, tier, flavour):
                 segs.insert(0, ["d", rp.choice(delims)])
             if rp.random() < 0.15 and segs:
                 segs.append(["d", rp.choice(delims)])
+            for j, sg in enumerate(segs):
+                if sg[0] == "ip6":
+                    # an IPv6 address stands between blanks (its recogniser refuses ':', '.', '-' and word characters next to it)
+                    for nb in (j - 1, j + 1):
+                        if 0 <= nb < len(segs) and segs[nb][0] == "d":
+                            segs[nb] = ["d", " "]
             if not k6:
                 # outside the K6 regime no MAC touches ':' (or '-'): the recogniser's look-arounds would skip it
                 for j, sg in enumerate(segs):
@@ -299,7 +353,7 @@ def _gen_case(rp, rf, rk, tier, flavour):
     case = {"w": "w3", "flavour": flavour, "cfg": cfg, "fqdn": fqdn, "keywords": kws, "patterns": patterns, "specs": specs,
             "kw_pad": rk.random() < 0.15, "facts_mid": (rk.randrange(len(specs)) if flavour == "C09" and rk.random() < 0.2 else None),
             "marker_mode": marker_mode, "regime": "collision" if collision else ("k6" if k6 else "base"),
-            "suffix_pair": suffix_pair, "prefix_pair": prefix_pair, "mac_twins": mac_twins, "_pool": pool}
+            "suffix_pair": suffix_pair, "prefix_pair": prefix_pair, "mac_twins": mac_twins, "ip6_twins": ip6_twins, "_pool": pool}
     if rk.random() < 0.2:
         # another Cleaner, for another system, is built (and used once) in the middle of the history: cleaners of one
         # process are independent objects
@@ -528,6 +582,7 @@ def oracle_c08(case, r, stats):
         issued_ip = set(o for _, o in snap["ip"])
         issued_host = set(o for _, o in snap["host"])
         issued_mac = set(o for _, o in snap["mac"])
+        issued_ip6 = set(o for _, o in snap["ipv6"])
         noobf = spec["no_obfuscate"]
         ips = planted({"specs": [spec]}, ("ip",))
         macs = planted({"specs": [spec]}, ("mac",))
@@ -566,6 +621,10 @@ def oracle_c08(case, r, stats):
                 for h in hosts + [case["fqdn"], short]:
                     if h not in issued_host and h in o:
                         viols.append(V("C08.leak", "hostname-survives:%s" % ("short" if h == short else "fqdn"), "host name %r survives in %r" % (h, o)))
+            if cfg["obfuscate"] and cfg["obfuscate_ipv6"] and "ipv6" not in noobf:
+                for a6 in planted({"specs": [spec]}, ("ip6",)):
+                    if a6 not in issued_ip6 and occurs_token(a6, o, "0123456789abcdefABCDEF:"):
+                        viols.append(V("C08.leak", "ipv6-survives", "address %r survives in %r" % (a6, o)))
             if cfg["obfuscate"] and cfg["obfuscate_mac"] and "mac" not in noobf:
                 for m in macs:
                     if m not in issued_mac and occurs_token(m, o, "0123456789abcdefABCDEF_" + WORD):
@@ -603,6 +662,8 @@ def expected_outputs(case, final):
                     t = mp["ip"].get(t, "<UNREPORTED-ip:%s>" % t)
                 elif kind == "mac" and cfg["obfuscate"] and cfg["obfuscate_mac"] and "mac" not in noobf:
                     t = mp["mac"].get(t, "<UNREPORTED-mac:%s>" % t)
+                elif kind == "ip6" and cfg["obfuscate"] and cfg["obfuscate_ipv6"] and "ipv6" not in noobf:
+                    t = mp["ipv6"].get(t, "<UNREPORTED-ipv6:%s>" % t)
                 elif kind in ("host", "fqdn") and hn_on and "hostname" not in noobf and "." in t:
                     t = mp["host"].get(t, "<UNREPORTED-host:%s>" % t)
                 elif kind in ("short", "fqdn") and hn_on and "hostname" not in noobf:
@@ -635,6 +696,17 @@ def oracle_c09(case, r, stats, facts_dir):
     for a, b in case.get("mac_twins") or []:
         if a in mm and b in mm and mm[a].lower() != mm[b].lower():
             viols.append(V("C09.consistent", "same-mac-two-substitutes:letter-case", "the address %s / %s got two unrelated substitutes %s / %s" % (a, b, mm[a], mm[b])))
+    m6 = dict(final["ipv6"])
+    for a, b in case.get("ip6_twins") or []:
+        if a in m6 and b in m6:
+            import ipaddress
+            try:
+                same = ipaddress.ip_address(m6[a]) == ipaddress.ip_address(m6[b])
+            except ValueError:
+                same = False
+            if not same:
+                viols.append(V("C09.consistent", "same-ipv6-two-substitutes:notation",
+                               "one address written %s and %s got two different substitutes %s / %s" % (a, b, m6[a], m6[b])))
     exps = expected_outputs(case, final)
     for si, (exp, out) in enumerate(zip(exps, r.outputs)):
         if out is None:
@@ -673,7 +745,7 @@ def oracle_c09(case, r, stats, facts_dir):
             break
     # no phantom originals
     alltext = "\n".join(text_of(segs) for spec in case["specs"] for segs in spec["lines"])
-    for k in ("ip", "host", "mac", "kw"):
+    for k in ("ip", "host", "mac", "kw", "ipv6"):
         for orig, _ in final[k]:
             if orig not in alltext and orig != case["fqdn"]:
                 viols.append(V("C09.reported", "phantom-original:%s%s" % (k, sfx), "mapping lists %r which occurs nowhere in the content" % (orig,)))
@@ -683,7 +755,8 @@ def oracle_c09(case, r, stats, facts_dir):
             r.cleaner.generate_rhsm_facts()
             facts = json.load(open(os.path.join(facts_dir, "insights-client.facts")))
             for key, k in (("insights_client.obfuscated_ipv4", "ip"), ("insights_client.obfuscated_hostname", "host"),
-                           ("insights_client.obfuscated_mac", "mac"), ("insights_client.obfuscated_keyword", "kw")):
+                           ("insights_client.obfuscated_mac", "mac"), ("insights_client.obfuscated_keyword", "kw"),
+                           ("insights_client.obfuscated_ipv6", "ipv6")):
                 got = sorted((d["original"], d["obfuscated"]) for d in json.loads(facts[key]))
                 if got != sorted(final[k]):
                     viols.append(V("C09.reported", "facts-file-differs:%s" % k, "facts file %s = %r, mapping() = %r" % (key, got, sorted(final[k]))))
@@ -795,7 +868,7 @@ ASSUME = [
     "concurrent callers share a Cleaner only with obfuscation off (collect() refuses the parallel strategy otherwise)",
     "width mode (the netstat spec): an address is followed by a run of >= 12 blanks or ends the line, as netstat's columns are; the re-alignment removes up to six characters after an address without looking at them",
     "<= 6 specs x <= 8 lines x <= 7 tokens per line, token pools of <= 5 per kind (recurrence is forced)",
-    "IPv6 originals are not planted (the property does not speak about them); the IPv6 obfuscator still takes part in the pipeline order",
+    "IPv6 originals (0-2 addresses, each in up to three notations: plain, zero padded, mixed, upper case, '::' compressed) stand between blanks and never start with '::' (the recogniser's own FIXME)",
 ]
 
 
